@@ -22,7 +22,15 @@ SPEC = {
             "6 thorough + witness): a second instance on the pid file of a running one must be refused; then stop/start in PID namespaces "
             "of their own (unshare --pid --fork --mount-proc /bin/sh -c 'sleep 0.2 && vflow …', the shipped docker-compose entrypoint), "
             "pid file and cache files kept: the second start must come up (its pid file records its own PID) and decode data sent "
-            "without templates; no verdict where PID namespaces cannot be created (summary key pid_namespaces). Non-trivial = a cycle that "
+            "without templates; no verdict where PID namespaces cannot be created (summary key pid_namespaces). And start-up stops (32 quick / "
+            "320 thorough + the witnesses of corpus/C15; four at a time, after everything else): SIGTERM / SIGINT 0 .. 40 ms after the exec of "
+            "the collector (dense at 0 .. 20 ms), or at the moment the harness sees the cycle's pid file hold the new pid / the first log "
+            "line, i.e. while main is still reading its options; a pid file of an earlier run (dead pid: vFlowIsRunning forks kill -0) in "
+            "half of them, small valid cache files of an earlier run (written by the real code) in all; verdict with certainty only: a "
+            "process that ended by the signal (negative wait status) is fail:killed iff its own fresh pid file already holds its pid or "
+            "GetOptions has already logged (main was running and had had the chance to install the handler), and gives no verdict "
+            "otherwise (the instants before main are the operating system's: summary key startup_stops_before_main); exit status 0: no "
+            "panic, exit within 6 s, both cache files still hold every template (real GetCache). Non-trivial = a cycle that "
             "passed every check; distinct = distinct cycle description",
     "assumptions": ["wall-clock behaviour, signal delivery, the non-atomic stop flag and UDP delivery on loopback are the runtime's and the "
                     "kernel's: observed by the e2e cycles, not proved",
@@ -32,7 +40,12 @@ SPEC = {
                     "GetCache (reading and parsing the cache file, then the assignment to the package-level variable) is one atomic step "
                     "of the model's reader that may take arbitrarily long relative to shutdown(); the atomic flag is sequentially "
                     "consistent (sync/atomic); the pid-file model takes `kill -0 <text>` to succeed exactly on the decimal text of a "
-                    "live PID of the process's namespace"],
+                    "live PID of the process's namespace",
+                    "the model of main and the signal (Model/MainSignal): a signal before signal.Notify has returned ends the process "
+                    "(default action), after it the signal is relayed to the channel without blocking (buffered if there is room, handed "
+                    "over if main is receiving, dropped otherwise: package os/signal); the instants before main runs (exec, start of the Go "
+                    "runtime, package initialisation) are not modelled; statements of main are atomic steps, GetOptions is one step during "
+                    "which (= while main is at it) a signal may arrive"],
 }
 META = {
     "text": "Lean: the statements of the four shutdown() functions, the four UDP read loops, what follows each loop in run(), every send on / "
@@ -53,11 +66,21 @@ META = {
             "The pid-file test of a start (vFlowIsRunning, vFlowPIDWrite and their two call sites regenerated; no other user of the "
             "pid file) answers 'running' exactly when the file records a live PID other than the process's own, for every file "
             "content, own PID and set of live PIDs: a restart under the previous run's PID is not refused, a second instance is; the "
-            "old test refused every such restart (counterexample). Template survival composes with C10 "
+            "old test refused every such restart (counterexample). main itself is regenerated statement by statement (the signal "
+            "channel and its capacity, signal.Notify, GetOptions, set-up statements, the guarded load of the information model, the "
+            "spawns, the receive, the wait) and run next to the goroutines it starts and an environment that sends the signal at ANY "
+            "moment from main's first statement on (inductive reachability, no bound on steps; every reachable state is a pair of "
+            "separately enumerated states of main alone and of the protocol, the kernel checks an inductive invariant and the claims on "
+            "all pairs): the signal kills the process only while main is at its first two statements (channel declaration, Notify), a "
+            "written pid file implies an installed handler, a signal during the options phase is caught, and a caught signal ends in "
+            "exit status 0 through the stop protocol (every non-reader step decreases a measure no reader step changes, after stop every "
+            "step decreases a second one, the only stuck states are 'killed' and 'returned from main') with nothing wiped and no "
+            "panic; the order before the F32 repair and an unbuffered channel are counterexamples. Template survival composes with C10 "
             "(dump = consistent snapshot) and C11 (load_save). The binary itself is exercised by stop/start cycles with traffic in flight "
             "and by stops during which the process is frozen for longer than the grace period, by stops that arrive while a 100 MB cache "
-            "file of the previous run is still being loaded, and by stop/start pairs in PID namespaces (same PID on every start).",
-    "ref": "DESIGN.md §6 C15, §8 F21 F27 F28",
+            "file of the previous run is still being loaded, by stop/start pairs in PID namespaces (same PID on every start), and by "
+            "stops that arrive while main is still reading its options.",
+    "ref": "DESIGN.md §6 C15, §8 F21 F27 F28 F32",
     "note": "Partial: seconds, signals, the kernel and the scheduler are outside the model. Trusted: Lean kernel, "
             "factgen statement classification, e2e harness.",
     "technique": "Lean 4 exhaustive (kernel-decided) interleaving analysis of the regenerated stop protocol + end-to-end stop/start cycles of the binary",
